@@ -359,6 +359,58 @@ func enumerate(thorough bool) []gschema.Schema {
 		add(gschema.Field1(u, true))
 		addNested([]wrapper{refReq}, u, true)
 	}
+	// the SAME type used more than once in one package (passes that replace a
+	// type by a generated named object - unions, anonymous structs, enums - see
+	// the second occurrence through a different path): unions with a `null`
+	// branch, plain unions, discriminated unions, anonymous structs, enums and
+	// nullable scalars, in two fields of one struct (every requiredness
+	// combination), in two objects, and as a field next to a collection of it
+	null := irgen.Null()
+	repeated := []Term{
+		irgen.Disj(irgen.S("string"), irgen.S("int64"), null),
+		irgen.Disj(irgen.S("string"), irgen.S("bool"), null),
+		{K: "disj", Sub: []Term{ref("S"), ref("T"), null}, Disc: true},
+		irgen.Disj(irgen.S("string"), irgen.S("bool")),
+		{K: "disj", Sub: []Term{ref("S"), ref("T")}, Disc: true},
+		irgen.Struct1("g", true, con(irgen.S("int64"))),
+		irgen.Enum("str"),
+		irgen.Nullable(irgen.S("string")),
+		irgen.Nullable(irgen.Enum("str")),
+		irgen.Nullable(ref("P")),
+	}
+	two := func(ra, rb bool, a, b Term) {
+		add(gschema.WithSupport(gschema.Obj{Name: "Root", T: irgen.StructN([]irgen.Field{{Name: "a", Required: ra}, {Name: "b", Required: rb}}, []Term{a, b})}))
+	}
+	for i, u := range repeated {
+		add(gschema.Field1(u, true))
+		add(gschema.Field1(u, false))
+		for _, ra := range both {
+			for _, rb := range both {
+				two(ra, rb, u, u)
+			}
+		}
+		// in two objects: Root{a: U, f: ref(Q)}, Q{v: U}
+		for _, rv := range both {
+			add(gschema.WithSupport(
+				gschema.Obj{Name: "Root", T: irgen.StructN([]irgen.Field{{Name: "a", Required: true}, {Name: "f", Required: true}}, []Term{u, ref("Q")})},
+				gschema.Obj{Name: "Q", T: irgen.Struct1("v", rv, u)}))
+		}
+		// next to a collection of the same type
+		two(true, true, irgen.Array(u), u)
+		two(true, true, u, irgen.Array(u))
+		if thorough {
+			two(true, true, irgen.Map(u), u)
+			two(true, true, u, irgen.Map(u))
+			add(gschema.WithSupport(gschema.Obj{Name: "Root", T: irgen.StructN([]irgen.Field{{Name: "a", Required: true}, {Name: "b", Required: true}, {Name: "c", Required: true}}, []Term{u, u, u})}))
+		}
+		// the same branches with and without `null`
+		if i < 3 {
+			plain := u
+			plain.Sub = u.Sub[:len(u.Sub)-1]
+			two(true, true, plain, u)
+			two(true, true, u, plain)
+		}
+	}
 	// two fields: required x optional over a few representative types
 	rep := []Term{irgen.S("string"), con(irgen.S("int64")), irgen.S("any"), ref("P")}
 	for _, a := range rep {
